@@ -458,7 +458,15 @@ pub fn run_property(
     });
     let evdir = Path::new(VERIF_ROOT).join("evidence");
     std::fs::create_dir_all(&evdir).ok();
-    let evpath = evdir.join(format!("{property}.json"));
+    let mut evidence = evidence;
+    let part_name = std::env::var("VERIF_EVIDENCE_PART").ok();
+    if part_name.is_none() {
+        merge_parts(&evdir, property, &mut evidence);
+    }
+    let evpath = match &part_name {
+        Some(n) => evdir.join(format!("{property}.{n}.part.json")),
+        None => evdir.join(format!("{property}.json")),
+    };
     if let Err(e) = std::fs::write(&evpath, serde_json::to_string_pretty(&evidence).unwrap()) {
         eprintln!("HARNESS-ERROR: cannot write {}: {e}", evpath.display());
         return 2;
@@ -483,6 +491,61 @@ pub fn run_property(
         1
     } else {
         0
+    }
+}
+
+/// Merge evidence written by other processes of the same check (another build profile, the
+/// shuttle part of C17) into the main evidence file: counts are added, samples appended, the
+/// part is kept verbatim under coverage.parts.<name>. Part files are consumed.
+fn merge_parts(evdir: &Path, property: &str, evidence: &mut serde_json::Value) {
+    let Ok(rd) = std::fs::read_dir(evdir) else { return };
+    let mut names: Vec<PathBuf> = rd.filter_map(|e| e.ok().map(|e| e.path())).collect();
+    names.sort();
+    for p in names {
+        let fname = p.file_name().and_then(|f| f.to_str()).unwrap_or("").to_string();
+        let prefix = format!("{property}.");
+        if !fname.starts_with(&prefix) || !(fname.ends_with(".part.json") || fname.ends_with(".part2.json")) {
+            continue;
+        }
+        let Ok(txt) = std::fs::read_to_string(&p) else { continue };
+        let Ok(part) = serde_json::from_str::<serde_json::Value>(&txt) else { continue };
+        let cov = if part.get("coverage").is_some() { part["coverage"].clone() } else { part.clone() };
+        let add = |v: &serde_json::Value, keys: &[&str]| -> u64 { keys.iter().filter_map(|k| v.get(*k).and_then(|x| x.as_u64())).next().unwrap_or(0) };
+        let ev = add(&cov, &["evaluations", "schedules"]);
+        let di = add(&cov, &["distinct_nontrivial", "distinct_schedules"]);
+        let c = &mut evidence["coverage"];
+        c["evaluations"] = json!(c["evaluations"].as_u64().unwrap_or(0) + ev);
+        c["distinct_nontrivial"] = json!(c["distinct_nontrivial"].as_u64().unwrap_or(0) + di);
+        if let (Some(dst), Some(src)) = (c["samples"].as_array().cloned(), cov.get("samples").and_then(|s| s.as_array())) {
+            let mut d = dst;
+            for s in src.iter().take(3) {
+                d.push(s.clone());
+            }
+            c["samples"] = json!(d);
+        }
+        if let Some(f) = cov.get("families").and_then(|f| f.as_array()) {
+            let mut d = c["families"].as_array().cloned().unwrap_or_default();
+            d.extend(f.iter().cloned());
+            c["families"] = json!(d);
+        }
+        for k in ["faults_fired", "probes"] {
+            if let Some(m) = cov.get(k).and_then(|m| m.as_object()) {
+                for (kk, vv) in m {
+                    let cur = c[k].get(kk).and_then(|x| x.as_u64()).unwrap_or(0);
+                    c[k][kk] = json!(cur + vv.as_u64().unwrap_or(0));
+                }
+            }
+        }
+        let name = fname.trim_start_matches(&prefix).trim_end_matches(".json").to_string();
+        let mut kept = cov.clone();
+        if let Some(o) = kept.as_object_mut() {
+            o.remove("samples");
+        }
+        c["parts"][name] = kept;
+        let pv = part.get("violations").and_then(|v| v.as_u64()).unwrap_or(0);
+        evidence["violations"] = json!(evidence["violations"].as_u64().unwrap_or(0) + pv);
+        evidence["wall_s"] = json!(evidence["wall_s"].as_f64().unwrap_or(0.0) + part.get("wall_s").and_then(|v| v.as_f64()).unwrap_or(0.0));
+        std::fs::remove_file(&p).ok();
     }
 }
 
